@@ -51,6 +51,9 @@ def main(args):
     try:
         archive_version_index = None
         staging_path = ctx.output_path / ARCHIVE_STAGING
+        # Remove anything left behind by an earlier (interrupted) restore. A
+        # stale archive index must never be mistaken for this archive's index.
+        shutil.rmtree(staging_path, ignore_errors=True)
         staging_path.mkdir(exist_ok=True)
         extract_archive(archive_file, staging_path)
 
